@@ -141,12 +141,6 @@ Proof.
   - apply IHl; [assumption|]. intros y Hy Hin. apply (Hd y Hy). right. exact Hin.
 Qed.
 
-Lemma wacc_cons s y b v :
-  wacc s y (b :: v) = match wdelta (fl_trans s) y b with Some t => wacc s t v | None => false end.
-Proof.
-  unfold wacc. simpl. destruct (wdelta (fl_trans s) y b); [reflexivity|]. rewrite wrun_None. reflexivity.
-Qed.
-
 (* ---------- the invariant after add_to_trie ---------- *)
 Section Add.
   Variables (s : flst) (done : list word) (u : word) (a : nat) (r : word).
@@ -477,5 +471,34 @@ Section Add.
         * apply prefixb_spec in Ep. apply (path_acc v q Ep). left. exact Hv.
         * rewrite off_acc; [exact Hv|]. split; [exact Hko|]. intro H. apply prefixb_spec in H. congruence.
       + exists y2. apply (chain_acc y2 y1 y2 Hr). reflexivity.
+  Qed.
+
+  Lemma run'_old x0 : forall y t, wrun (fl_trans s) (Some y) x0 = Some t -> wrun tr' (Some y) x0 = Some t.
+  Proof.
+    induction x0 as [|b x0 IH]; intros y t H; simpl in *; [exact H|].
+    destruct (wdelta (fl_trans s) y b) as [t0|] eqn:Ed; [|rewrite wrun_None in H; discriminate].
+    rewrite (delta'_old _ _ _ Ed). apply IH. exact H.
+  Qed.
+
+  Lemma u_pre_cur : pre u cur.
+  Proof. apply pre_app. Qed.
+
+  Lemma add_inv_M : InvM s u -> InvM s' cur.
+  Proof.
+    intro HM.
+    assert (Hoff : forall y, registered s y -> offpath y).
+    { intros y [sg Hin]. destruct (i_sigs _ _ _ HI _ _ Hin) as (H1 & H2 & _). split; [|exact H1].
+      unfold compute_signature in H2. unfold key. destruct (wassoc y (fl_trans s)); discriminate. }
+    constructor; simpl.
+    - intros y Hk Hn. change (registered s y). destruct (tr'_key y Hk) as [Hko|[y1 [Hp ->]]].
+      + apply (m_reg _ _ HM y Hko). intro Hp. apply Hn. eapply pre_trans; [exact Hp|apply u_pre_cur].
+      + exfalso. apply Hn. rewrite cur_np. apply pre_cancel. exact Hp.
+    - exact (m_uniq _ _ HM).
+    - intros y y' Hy Hy' Hne. change (registered s y) in Hy. change (registered s y') in Hy'.
+      destruct (m_dist _ _ HM y y' Hy Hy' Hne) as [w Hw]. exists w.
+      rewrite (off_acc w y (Hoff y Hy)), (off_acc w y' (Hoff y' Hy')). exact Hw.
+    - intros y Hk. destruct (tr'_key y Hk) as [Hko|[y1 [Hp ->]]].
+      + destruct (m_acc _ _ HM y Hko) as [x0 Hx]. exists x0. apply run'_old. exact Hx.
+      + exists (np ++ y1). apply (path_run s' (cur :: done) cur add_inv). rewrite cur_np. apply pre_cancel. exact Hp.
   Qed.
 End Add.
